@@ -291,7 +291,7 @@ def main():
         })
     m = {
         "version": 1,
-        "setup_cmd": "cd lean && lake build",
+        "setup_cmd": "cd harness && /venv/bin/python regen_all.py > /dev/null; cd ../lean && lake build",
         "hooks": {
             "guard": "COBRAPY_VERIF",
             "enable": "no hooks in /repo: the harness intercepts optlang/GLPK calls and worker functions in-process",
